@@ -14,6 +14,7 @@ pub struct Unit {
     pub features: BTreeSet<String>,
     pub preludes: Vec<String>,
     pub specs: Vec<String>,
+    pub specrefs: Vec<String>,        // contracts proved in another unit, used here as stubs: unused sections are fine
     pub eager: BTreeSet<String>,      // async callees: `.await` directly on the call is removed (A1); un-awaited -> `<name>__fut` (A1b)
     pub traced: BTreeSet<String>,     // callees that take `Tracked(w)` (G1)
     pub paths: Vec<(String, String)>, // exact (space-free) expression/type path => replacement
@@ -38,6 +39,7 @@ impl Unit {
                 "features" => u.features.extend(words()),
                 "prelude" => u.preludes.extend(words()),
                 "spec" => u.specs.extend(words()),
+                "specref" => u.specrefs.extend(words()),
                 "eager" => { u.eager.extend(words()); u.traced.extend(words()); }
                 "traced" => u.traced.extend(words()),
                 "ufcs" => u.ufcs.extend(words()),
@@ -59,7 +61,7 @@ impl Unit {
         }
         // extracted functions are traced/eager by default (they get Tracked(w) unless ghost=none)
         for ex in u.extracts.clone() {
-            if ex.kind == "fn" || ex.kind == "asyncblock" {
+            if ex.kind == "fn" || ex.kind == "asyncblock" || ex.kind == "stub" {
                 let base = ex.path.rsplit("::").next().unwrap().to_string();
                 let name = ex.opt("name").unwrap_or(base);
                 if ex.opt("ghost").as_deref() != Some("none") { u.traced.insert(name.clone()); }
